@@ -34,9 +34,9 @@ class Master:
     def table(self):
         return sorted([int(k), int(v)] for k, v in self.m.dhcp_dict.items())
 
-    def _inject(self, frm, typ, reserved, msg=b"", pipe=None, noise=None):
+    def _inject(self, frm, typ, reserved, msg=b"", pipe=None, noise=None, to=0):
         self.fid = (self.fid + 1) & 0xFFFF
-        buf = struct.pack("<HHHBB", frm, 0, self.fid, typ, reserved) + msg
+        buf = struct.pack("<HHHBB", frm, to, self.fid, typ, reserved) + msg
         if pipe is None:
             pipe = 0 if frm == DEFAULT else (frm & 7)   # children talk to the master's pipe <first digit>
         r = self.chip.inject(pipe, buf)
@@ -84,6 +84,14 @@ class Master:
         if getattr(self, "hung", False):
             return dict(op="raise" if getattr(self, "raised", False) else "hang", id=nid, via=via, before=b, after=b, replies=[], noise=-1)
         return dict(op="req", id=nid, via=via, before=b, after=self.table(), replies=rep, noise=-1 if noise is None else noise)
+
+    def routed(self, nid, frm, to):
+        """a request made to ANOTHER contact (to_node = a level-1 node) that is only passed along through the master"""
+        b = self.table()
+        if getattr(self, "hung", False):
+            return dict(op="routed", id=nid, before=b, after=b, replies=[])
+        rep = self._inject(frm, 195, nid, to=to)
+        return dict(op="routed", id=nid, before=b, after=self.table(), replies=rep)
 
     def release(self, addr):
         b = self.table()
@@ -155,6 +163,8 @@ def random_history(args):
             pool = [DEFAULT] * 3 + conn + [rng.choice([0o1, 0o2, 0o5, 0o14, 0o44, 0o444, 0o144, 0o344])]
             via = rng.choice(pool)
             ev.append(m.request(nid, via, noise=(rng.choice([i for i in ids if i != nid]) if (via != DEFAULT and via >= 0o10 and rng.random() < 0.4) else None)))
+        elif x < 0.75:
+            ev.append(m.routed(rng.choice(ids), rng.choice([0o2, 0o3, 0o12]), rng.choice([0o1, 0o4, 0o15])))
         elif x < 0.9 and tab:
             ev.append(m.release(rng.choice(list(tab.values()))))
         elif x < 0.94:
